@@ -3,7 +3,7 @@ CONSTANTS
   MaxNodes = 6
   Keys = {1, 2}
   Leafs = {101, 160, 170}
-  Shapes = {200, 201, 210, 211, 220}
+  Shapes = {200, 201, 210, 211, 220, 223}
   MaxLen = 3
   Acts = {"dict", "list", "perm", "clone", "forget", "slice", "rebind", "inplace", "flags", "scope"}
   Mirror = FALSE
